@@ -59,6 +59,7 @@ type Interp struct {
 	inited   map[*ssa.Package]bool
 	execInit func(p *ssa.Package) bool
 	replace  map[string]*ssa.Function // callee full name -> harness replacement
+	replaceCompat map[string]bool
 	fset     *token.FileSet
 	steps    int64
 	curG     *G
@@ -705,6 +706,9 @@ func (in *Interp) callFunction(fr *frame, fn *ssa.Function, args []Value, env []
 	name := fnName(fn)
 	if r, ok := in.replace[name]; ok && (fr == nil || fr.fn != r) {
 		in.e.stubsHit["replaced:"+name] = true
+		if !in.replaceCompat[name] {
+			in.e.pathDep |= 8 // a harness replacement ran: the native twin runs the real callee instead
+		}
 		return in.callFn(fr, r, args, nil, site)
 	}
 	if h, ok := intrinsics[name]; ok {
